@@ -97,6 +97,66 @@ CHECKS.update({
         note=TRUST + 'The prefix property inside libyaml\'s own output buffer (C code) is not visible.'),
 })
 
+CHECKS.update({
+    'C02': dict(
+        level='other', technique='table/literal agreement between writer and reader, CFG pairing, constant evaluation of character predicates',
+        design='DESIGN.md 4/C02',
+        text='Round-trip equality is value-level and NOT decided. Decided are agreement clauses that are necessary for it: safe '
+             'dumpers represent exactly the safe type universe and every tag they write has a safe constructor accepting the node '
+             'kind; dumpers and loaders share one implicit-resolver table and the serializers compute implicit flags with it; plain '
+             'style / tag elision only under those flags; escape tables inverse and raw characters printable; tag/anchor '
+             'characters accepted by the scanner; break-class literals complete; event brackets; alias keys are ids of kept-alive '
+             'objects and only immutable atoms skip anchoring; container constructors two-phase and lazy.',
+        note=TRUST + 'Scalar analysis, folding, chomping/indent hints and width handling (the interactions named in why_tests_cant) '
+             'are outside what these rules decide.'),
+    'C05': dict(
+        level='other', technique='CFG path rule over the emitter state machine, propositional model enumeration of conditions, literal agreement',
+        design='DESIGN.md 4/C05',
+        text='Decides: every explicit raise of the emitter is EmitterError and every state handler positively identifies the event '
+             'class or raises on every path (ill-formed event sequences end in EmitterError); stack/queue/table look-ups of the '
+             'emitter guarded; bytes iteration consistent; escape tables inverse; tag characters accepted by the scanner; plain/'
+             'elision only under implicit flags; a directive line is preceded by "..." after an open-ended document (implication '
+             'checked over all truth assignments); a prefix is replaced by its handle only when a non-empty suffix remains; '
+             'break-class literals complete. Character-for-character fidelity of the scalar writers is NOT decided.',
+        note=TRUST + 'A-EVENT-SHAPE: event objects carry well-typed payloads.'),
+    'C14': dict(
+        level='other', technique='CFG dominance of node-shape / hashability guards, alias analysis of the merge flattening',
+        design='DESIGN.md 4/C14',
+        text='Decides the rejection sentence (every use of a node as scalar/sequence/mapping/single-pair mapping is dominated by the '
+             'test whose failure raises ConstructorError; dict store dominated by the hashability test) and the structural '
+             'invariants merge precedence and source re-use rest on (flatten_mapping mutates only fresh lists and the node being '
+             'flattened; merged pairs are prepended to own pairs). Precedence among several merge sources and merge recursion are '
+             'value-level and NOT decided.',
+        note=TRUST),
+    'C15': dict(
+        level='other', technique='keyword-binding check along the API/dumper/component chain, guard evaluation on probe values, funnel rules',
+        design='DESIGN.md 4/C15',
+        text='Decides: every option is forwarded keyword-for-keyword from the API through all six dumper classes to the component '
+             'that implements it; indent/width/line_break only receive defaults or values their guard confines (guards evaluated '
+             'on probe values); CR/LF reach the stream only through write_line_break and a text LF is never written verbatim; '
+             'every write encodes when an encoding is set; str/bytes/BOM selection; document events built from the options per '
+             'document (C emitter mapping included); "..." before directives after an open-ended document; raw tag/anchor '
+             'characters are printable ASCII and accepted by the scanner. Per-line indentation and canonical-form acceptance are '
+             'value-level and NOT decided.',
+        note=TRUST),
+    'C16': dict(
+        level='other', technique='who-may-call rule for nondeterminism sources, shape rule on the sort gate, reset post-dominance',
+        design='DESIGN.md 4/C16',
+        text='Decides: no source of run-to-run variation on the dump path (id() only as alias key); items sorted with sorted() '
+             'exactly when sort_keys, TypeError falls back to insertion order, sets pass the same gate; sort_keys plumbed; anchor '
+             'names are a template of a per-document counter that is reset; loading inserts in document order. The fixed-point '
+             'equality dump(load(dump(x))) == dump(x) is relational over runs and NOT decided.',
+        note=TRUST),
+    'C17': dict(
+        level='other', technique='writer/reader vocabulary agreement over reconstructed tables and constant tag expressions',
+        design='DESIGN.md 4/C17',
+        text='Decides that Representer and the unsafe loaders speak the same protocol: every tag/prefix written has a table entry '
+             'accepting the node kind; state keys written are read; list items applied by extend, dict items by item assignment, '
+             'arguments constructed deep; exactly tuple/complex/name are in the Full tables; alias keys of kept-alive objects; '
+             'recursion guard. Equality with what pickle rebuilds is value-level and NOT decided.',
+        note=TRUST),
+})
+
 NOT_APPLICABLE = {
     'C12': 'Whether ---/... are written where needed depends on run-time values (open_ended, explicit/version/tags of the '
            'event, the last scalar\'s text and style, and one case inside libyaml); there is no invariant of the code\'s shape '
